@@ -8,6 +8,15 @@ MISSING = ("missing",)
 
 
 def nm(t):
+    """name the library model is keyed on: for a std/dependency callee the path of the called item itself (trait
+    method or inherent method), not the instance rustc resolved it to (whose impl path is not nameable)"""
+    if t.get("callee_local") is False and t.get("callee"):
+        n = strip_generics(t["callee"])
+        r = t.get("resolved") or ""
+        # keep the `<Type as Trait>::m` form when the resolved instance has it: models look at the receiver type
+        if r.startswith("<") and " as " in r:
+            return strip_generics(r)
+        return n
     return strip_generics(callee_name(t))
 
 
@@ -196,12 +205,22 @@ class Analyzer(Interp):
         for j, (key, lins, lo, hi) in jsyms.items():
             ty = self.ktype.get(key)
             tlo, thi = TYPE_RANGE.get(ty, (None, None)) if ty in TYPE_RANGE else ((0, LEN_MAX) if j.startswith("jl:") else (None, None))
-            if widen_round >= 2 and prev is not None:
+            if widen_round >= 2 and prev is not None and j in prev.store.ranges:
+                # interval widening  prev ∇ new : a bound that moved outwards jumps to the type bound, one that
+                # moved inwards stays where it was (the iteration sequence must be increasing to terminate)
                 plo, phi = prev.store.ranges.get(j, (None, None))
-                if lo is not None and (plo is None or lo < plo):
-                    lo = tlo
-                if hi is not None and (phi is None or hi > phi):
-                    hi = thi
+                if plo is None or lo is None or lo < plo:
+                    lo = tlo if (plo is None or lo is None or lo < plo) and not (plo is None and lo is None) else lo
+                    if plo is None:
+                        lo = None
+                else:
+                    lo = plo
+                if phi is None or hi is None or hi > phi:
+                    hi = thi if not (phi is None and hi is None) else hi
+                    if phi is None:
+                        hi = None
+                else:
+                    hi = phi
             if lo is None:
                 lo = tlo
             if hi is None:
@@ -257,6 +276,11 @@ class Analyzer(Interp):
         if prev is not None:
             for c in prev.store.cons:
                 addc(c)
+        if prev is not None and widen_round >= 3:
+            # widening of the relational part: from the third visit on only constraints already present at the
+            # previous visit may survive, so the set can only shrink
+            pset = prev.store._set
+            cands = [c for c in cands if c in pset]
         cands = [c for c in cands if not any(sy.endswith("'") for sy in c.syms())]
         if len(cands) > 60:
             cands = cands[:60]
@@ -610,9 +634,24 @@ class Analyzer(Interp):
             self.require(st, fn, b, "overflow:" + op, "%s does not overflow %s" % (op, ty), lins, cls="B")
             return
         if k in ("divzero", "remzero"):
-            a = self.deref(st, self.operand(st, frame, m["a"]))
-            lin = a[1] if a[0] == "int" else None
-            self.require(st, fn, b, k, "divisor is not zero", [Lin.const(1).sub(lin) if lin is not None else None])
+            # the message operand is the dividend; the divisor is in the asserted condition `!(divisor == 0)`
+            c = self.deref(st, self.operand(st, frame, t["cond"]))
+            ok = False
+            if c[0] == "bool" and c[1] is not TOP:
+                s2 = st.copy()
+                self.assume(s2, c[1], not t.get("expected", True))
+                ok = s2.bottom
+            s = self.site(fn, b, k, "divisor is not zero")
+            if not st.bottom:
+                s.seen += 1
+                if not ok:
+                    if s.ok:
+                        s.fail_detail = "cannot show the divisor is non-zero [context: %s]" % " > ".join(self.stack[-3:])
+                    s.ok = False
+                elif s.proof is None:
+                    s.proof = "the assert condition is implied by the state"
+            if c[0] == "bool":
+                self.assume(st, c[1], t.get("expected", True))
             return
         if k == "overflowneg":
             self.require(st, fn, b, "overflowneg", "negation does not overflow", [None], cls="B")
@@ -628,7 +667,18 @@ class Analyzer(Interp):
     def arg(self, st, frame, t, i):
         if i >= len(t["args"]):
             return TOP
-        return self.operand(st, frame, t["args"][i])
+        o = t["args"][i]
+        v = self.operand(st, frame, o)
+        if v[0] == "ptr" and v[1] not in self.ktype:
+            ty = (o.get("p") or {}).get("ty") or o.get("ty") or ""
+            if ty.startswith("&"):
+                ty = ty[1:].lstrip()
+                if ty.startswith("'"):
+                    ty = ty.split(" ", 1)[1] if " " in ty else ty
+                if ty.startswith("mut "):
+                    ty = ty[4:]
+                self.ktype[v[1]] = ty
+        return v
 
     def argd(self, st, frame, t, i):
         return self.deref(st, self.arg(st, frame, t, i))
